@@ -314,6 +314,12 @@ func (w *walker) cff() {
 	}
 	if cs, ok := w.index(one(17)); ok && one(17) > 0 {
 		w.add("cff:INDEX-offSize%d", cs.offSize)
+		for _, it := range cs.items {
+			w.t2ops(w.b[it[0]:it[1]])
+		}
+	}
+	for _, it := range gs.items {
+		w.t2ops(w.b[it[0]:it[1]])
 	}
 	switch c := one(15); {
 	case c <= 2 && !cid:
@@ -338,6 +344,9 @@ func (w *walker) cff() {
 			pd := dictOf(w.b[p[1] : p[1]+p[0]])
 			if s := pd[19]; len(s) == 1 && s[0] > 0 {
 				if li, ok := w.index(p[1] + s[0]); ok && len(li.items) > 0 {
+					for _, it := range li.items {
+						w.t2ops(w.b[it[0]:it[1]])
+					}
 					w.add("cff:local-subrs")
 					w.add("cff:INDEX-offSize%d", li.offSize)
 				}
@@ -356,5 +365,43 @@ func (w *walker) cff() {
 		}
 	} else {
 		private(td)
+	}
+}
+
+// t2ops tokenises a Type 2 charstring (TN5177) and records the operators and number forms used.
+// Stem counting (for the length of hintmask data) is local to one charstring.
+func (w *walker) t2ops(code []byte) {
+	depth, stems := 0, 0
+	for i := 0; i < len(code); {
+		c := int(code[i])
+		switch {
+		case c >= 32 && c <= 246:
+			i, depth = i+1, depth+1
+		case c >= 247 && c <= 254:
+			w.add("cff:t2-num-2byte")
+			i, depth = i+2, depth+1
+		case c == 28:
+			w.add("cff:t2-num-shortint")
+			i, depth = i+3, depth+1
+		case c == 255:
+			w.add("cff:t2-num-fixed")
+			i, depth = i+5, depth+1
+		case c == 12:
+			if i+1 < len(code) {
+				w.add("cff:t2-op-12.%d", code[i+1])
+			}
+			i, depth = i+2, 0
+		default:
+			w.add("cff:t2-op-%d", c)
+			i++
+			switch c {
+			case 1, 3, 18, 23:
+				stems += depth / 2
+			case 19, 20:
+				stems += depth / 2
+				i += (stems + 7) / 8
+			}
+			depth = 0
+		}
 	}
 }
